@@ -24,6 +24,8 @@ static struct exp_rec g_exp[MAXREC]; static int g_nexp;
 static uint8_t g_pool[400000]; static size_t g_pool_n;
 static int g_err = 0, g_setflags = -1, g_api_fail;
 static char g_ctx[300];
+static size_t g_rr_start[16];   /* offsets at which the first added records begin in the decoded response */
+#define STRADDLE_NAME "aaaaaaaaaaaaaaaa.bbbbbbbbbbbbbbbb.cccc.newzone.example"   /* inner suffixes begin 17, 34, 39 and 47 octets after its start */
 
 /* ---- what the callback does: driven by the scenario ---- */
 static struct evdns_server_request *g_req;
@@ -93,7 +95,7 @@ static void add_name_rr(int section, const char *owner, int type, const char *ta
 }
 
 /* ---- scenarios ---- */
-enum { F_SWEEP512, F_SWEEPEDNS, F_SWEEP16K, F_SWEEP64K, F_NAMES, F_TABLE, F_SECTIONS, F_ERR, F_PTRIN };
+enum { F_SWEEP512, F_SWEEPEDNS, F_SWEEP16K, F_SWEEP64K, F_NAMES, F_TABLE, F_SECTIONS, F_ERR, F_PTRIN, F_STRADDLE };
 struct item { uint8_t fam, mode; int16_t a, b, c, d; };
 static struct item *items; static size_t n_items, cap_items;
 static void add_item(int fam, int mode, int a, int b, int c, int d)
@@ -128,6 +130,17 @@ static void scenario(struct evdns_server_request *req)
 		add_cname("late.one.zone.test", "late.two.other.example", 6);
 		add_a("late.two.other.example", 1, 7, 1);
 		add_name_rr(S_AUTH, "other.example", 2, "late.one.zone.test", 8);
+		break;
+	case F_STRADDLE:
+		/* a name written in full that starts at or below offset 0x3fff and whose inner labels begin beyond it,
+		 * followed by names that share only those inner suffixes (and by the whole name again) */
+		add_filler(S_ANS, "fill.zone.test", 8000); add_filler(S_ANS, "fill.zone.test", (size_t)g_fill);
+		add_a(STRADDLE_NAME, 1, 5, 1);
+		add_a("x.bbbbbbbbbbbbbbbb.cccc.newzone.example", 1, 6, 2);
+		add_cname("y.cccc.newzone.example", "t.newzone.example", 7);
+		add_a("z.example", 1, 8, 3);
+		add_a(STRADDLE_NAME, 1, 9, 4);
+		add_name_rr(S_AUTH, "newzone.example", 2, "ns.cccc.newzone.example", 10);
 		break;
 	case F_SWEEP64K:
 		for (int i = 0; i < 4; i++) add_filler(S_ANS, "fill.zone.test", 16000);
@@ -207,6 +220,7 @@ static void verify(const uint8_t *m, size_t len, const char *qname, int had_opt,
 			else { e = &g_exp[i]; if (e->section != sec) continue; }
 			rc = dw_read_rr(&rd, &rr);
 			if (rc) { if (truncated) goto counts; CFAIL("record-undecodable", "%s: section %d record %d: %s", g_ctx, sec, k, dw_strerror(rc)); }
+			if (i >= 0 && i < 16) g_rr_start[i] = rr.start;
 			name_check(&rr.owner, "owner", i, &bad); if (bad) return;
 			if (!e) { if (rr.type != DW_TYPE_OPT || rr.owner.nlabels) CFAIL("record-differs", "%s: first additional record is not the OPT pseudo-record (type %u)", g_ctx, rr.type); }
 			else {
@@ -327,6 +341,28 @@ static void run_sweep(const struct item *it, int mode, unsigned opt_query, size_
 	hygiene();
 }
 
+/* position sweep: the record that carries STRADDLE_NAME (third added record) starts exactly at offset `where` */
+static void run_straddle(size_t where)
+{
+	g_fill = 0; g_err = 0; g_setflags = -1; memset(g_rr_start, 0, sizeof g_rr_start);
+	if (exchange(SM_TCP, QNAME_DEFAULT, 0) || !g_r.have) { if (!mc_failed()) mc_fail("harness:probe", "%s: probe exchange gave no response", g_ctx); return; }
+	verify(g_r.b, g_r.n, QNAME_DEFAULT, 0, 0);
+	if (mc_failed()) return;
+	if (!g_rr_start[2] || g_rr_start[2] > where) { mc_fail("harness:straddle-base", "%s: the name starts at %zu without padding", g_ctx, g_rr_start[2]); return; }
+	g_fill = (long)(where - g_rr_start[2]); memset(g_rr_start, 0, sizeof g_rr_start);
+	if (exchange(SM_TCP, QNAME_DEFAULT, 0)) return;
+	if (!g_r.have) { mc_fail("C35/no-response", "%s: nothing arrived", g_ctx); return; }
+	if (dw_get_u16(g_r.b + 2) & DW_F_TC) { mc_fail("C35/tcp-truncated-below-64k", "%s: TC set on a %zu octet TCP response", g_ctx, g_r.n); return; }
+	verify(g_r.b, g_r.n, QNAME_DEFAULT, 0, 0);
+	MC_COUNT("oracle_straddle_checked");
+	if (!mc_failed()) {
+		if (g_rr_start[2] != where) { mc_fail("harness:straddle-position", "%s: the name starts at %zu", g_ctx, g_rr_start[2]); return; }
+		if (where <= 0x3fff && where + 47 >= 0x4000) MC_COUNT("straddle_name_crosses_0x4000");       /* starts in pointer range, an inner suffix does not */
+	}
+	mc_nontrivial(dp_hash_bytes(24, g_r.b + 16000, g_r.n > 16000 ? g_r.n - 16000 : 0) ^ where);
+	hygiene();
+}
+
 static void run_plain(const struct item *it, int mode, const char *qname, unsigned opt)
 {
 	(void)it;
@@ -363,6 +399,7 @@ static void generate(const char *tier)
 	}
 	for (int d = -(thorough ? 40 : 24); d <= (thorough ? 60 : 30); d++) add_item(F_SWEEP16K, SM_TCP, 0, 0, 0, d);
 	for (int d = -(thorough ? 12 : 6); d <= (thorough ? 12 : 6); d++) for (int a = 0; a < 2; a++) add_item(F_SWEEP64K, SM_TCP, a, 0, 0, d);
+	for (int d = -(thorough ? 120 : 64); d <= (thorough ? 40 : 16); d++) add_item(F_STRADDLE, SM_TCP, 0, 0, 0, d);   /* start of the name: 0x4000 + d */
 	for (int q = 0; q < N_POOL; q++) for (int o = 0; o < N_POOL; o++) for (int t = 0; t < N_POOL; t++) for (int kind = 0; kind < 3; kind++) {
 		if (pool_names[q][0] == 0) continue;                                 /* question names come from the wire: not the root */
 		if (strchr(pool_names[q], 0)[-1] == '.') continue;                   /* ... and have no trailing dot */
@@ -389,6 +426,7 @@ static void item_fn(uint64_t idx)
 	case F_SWEEP512: snprintf(g_ctx, sizeof g_ctx, "%s sweep512 k=%d fillsec=%d mix=%d delta=%+d", mn[it->mode], it->a, it->b, it->c, it->d); run_sweep(it, it->mode, 0, 512, 512, it->d); break;
 	case F_SWEEPEDNS: snprintf(g_ctx, sizeof g_ctx, "%s sweep-edns1232 k=%d fillsec=%d mix=%d delta=%+d", mn[it->mode], it->a, it->b, it->c, it->d); run_sweep(it, it->mode, 1232, 1232, 1232, it->d); break;
 	case F_SWEEP16K: snprintf(g_ctx, sizeof g_ctx, "tcp sweep16k delta=%+d", it->d); run_sweep(it, SM_TCP, 0, 65535, 16384 + 120, it->d); break;
+	case F_STRADDLE: snprintf(g_ctx, sizeof g_ctx, "tcp straddle16k name-start=0x4000%+d", it->d); run_straddle((size_t)(0x4000 + it->d)); break;
 	case F_SWEEP64K: snprintf(g_ctx, sizeof g_ctx, "tcp sweep64k tail=%d delta=%+d", it->a, it->d); run_sweep(it, SM_TCP, 0, 65535, 65535, it->d); break;
 	case F_NAMES: snprintf(g_ctx, sizeof g_ctx, "%s names q='%s' owner='%s' target='%s' kind=%d", mn[it->mode], pool_names[it->a], pool_names[it->b], pool_names[it->c], it->d); run_plain(it, it->mode, pool_names[it->a], 0); break;
 	case F_TABLE: snprintf(g_ctx, sizeof g_ctx, "%s label-table n=%d", mn[it->mode], it->a); run_plain(it, it->mode, "q.z0", (unsigned)it->b); break;
